@@ -1,0 +1,61 @@
+//go:build verif
+
+// Contracts for the verifier in /verif (comment-only; compiled only with -tags verif).
+// fr / tagged / untagged are the framing macros of /verif/prelude/macros.spec;
+// wfPK / nsq are defined in crypto/paillier's contract file.
+
+package mta
+
+//@ global zero != nil && val(zero) == 0 && one != nil && val(one) == 1
+
+//@ define q3(c) = curveN(c) * (curveN(c) * curveN(c))
+//@ define q7(c) = ((curveN(c) * (curveN(c) * curveN(c))) * (curveN(c) * (curveN(c) * curveN(c)))) * curveN(c)
+
+// ----- range_proof.go -----
+
+//@ define wfAlice(pf) = pf.Z != nil && pf.U != nil && pf.W != nil && pf.S != nil && pf.S1 != nil && pf.S2 != nil
+// challenge of Alice's range proof: H(N, N+1, c, z, u, w) mod q (no session: bound to the statement only)
+//@ define chalAlice(c, n, cc, z, u, w) = untagged(fr(fr(fr(fr(fr(fr(le64(6), n), n + 1), cc), z), u), w)) % curveN(c)
+
+//@ func (*RangeProofAlice).ValidateBasic
+//@   props C06
+//@   requires pf != nil
+//@   ensures result <==> wfAlice(pf)
+
+//@ func RangeProofAliceFromBytes
+//@   props C06 C10
+//@   ensures result1 != nil ==> result0 == nil
+//@   ensures [C10.arity] result1 == nil ==> (len(bzs) == 6 && result0 != nil && fresh(result0) && wfAlice(result0))
+//@   ensures [C10.decode] result1 == nil ==> (val(result0.Z) == beint(bytes(bzs[0])) && val(result0.U) == beint(bytes(bzs[1])) && val(result0.W) == beint(bytes(bzs[2])) && val(result0.S) == beint(bytes(bzs[3])) && val(result0.S1) == beint(bytes(bzs[4])) && val(result0.S2) == beint(bytes(bzs[5])))
+//@   ensures result1 == nil ==> (val(result0.Z) >= 0 && val(result0.U) >= 0 && val(result0.W) >= 0 && val(result0.S) >= 0 && val(result0.S1) >= 0 && val(result0.S2) >= 0)
+
+//@ func (*RangeProofAlice).Bytes
+//@   props C06 C10
+//@   requires pf != nil && wfAlice(pf)
+//@   ensures [C10.encode] bytes(result[0]) == be(val(pf.Z)) && bytes(result[1]) == be(val(pf.U)) && bytes(result[2]) == be(val(pf.W)) && bytes(result[3]) == be(val(pf.S)) && bytes(result[4]) == be(val(pf.S1)) && bytes(result[5]) == be(val(pf.S2))
+
+//@ func ProveRangeAlice
+//@   props C06 C10 C12 C13
+//@   requires okCurve(ec) && rand != nil && (pk != nil ==> pk.N != nil)
+//@   requires [parameter-sizes] (NTilde != nil ==> (val(NTilde) > 0 && bitlen(val(NTilde)) <= 4096)) && (pk != nil ==> (val(pk.N) > 0 && bitlen(val(pk.N)) <= 4096))
+//@   requires [nonnegative-witness] m != nil ==> val(m) >= 0
+//@   ensures result1 != nil ==> result0 == nil
+//@   ensures result1 == nil ==> (pk != nil && NTilde != nil && h1 != nil && h2 != nil && c != nil && m != nil && r != nil && result0 != nil && fresh(result0) && wfAlice(result0))
+//@   ensures [C10.coins] result1 == nil ==> (0 <= sample(0) && sample(0) < q3(ec) && 1 <= sample(1) && sample(1) < old(val(pk.N)) && gcd(sample(1), old(val(pk.N))) == 1)
+//@   ensures [C10.z] result1 == nil ==> val(result0.Z) == (powmod(old(val(h1)), old(val(m)), old(val(NTilde))) * powmod(old(val(h2)), sample(3), old(val(NTilde)))) % old(val(NTilde))
+//@   ensures [C10.u] result1 == nil ==> val(result0.U) == (powmod(old(val(pk.N)) + 1, sample(0), old(nsq(pk))) * powmod(sample(1), old(val(pk.N)), old(nsq(pk)))) % old(nsq(pk))
+//@   ensures [C10.w] result1 == nil ==> val(result0.W) == (powmod(old(val(h1)), sample(0), old(val(NTilde))) * powmod(old(val(h2)), sample(2), old(val(NTilde)))) % old(val(NTilde))
+//@   ensures [C10.s1-s2] result1 == nil ==> (val(result0.S1) == chalAlice(ec, old(val(pk.N)), old(val(c)), val(result0.Z), val(result0.U), val(result0.W)) * old(val(m)) + sample(0) && val(result0.S2) == chalAlice(ec, old(val(pk.N)), old(val(c)), val(result0.Z), val(result0.U), val(result0.W)) * sample(3) + sample(2))
+//@   ensures [C10.s] result1 == nil ==> val(result0.S) == (powmod(old(val(r)), chalAlice(ec, old(val(pk.N)), old(val(c)), val(result0.Z), val(result0.U), val(result0.W)), old(val(pk.N))) * sample(1)) % old(val(pk.N))
+
+//@ func (*RangeProofAlice).Verify
+//@   props C06 C11 C12 C13 C05
+//@   requires okCurve(ec) && (pk != nil ==> pk.N != nil)
+//@   ensures result ==> (pf != nil && wfAlice(pf) && pk != nil && NTilde != nil && h1 != nil && h2 != nil && c != nil)
+//@   ensures [C11.ranges] result ==> (0 <= val(pf.Z) && val(pf.Z) < val(NTilde) && 0 <= val(pf.U) && val(pf.U) < nsq(pk) && 0 <= val(pf.W) && val(pf.W) < val(NTilde) && 0 <= val(pf.S) && val(pf.S) < val(pk.N))
+//@   ensures [C11.units] result ==> (gcd(val(pf.Z), val(NTilde)) == 1 && gcd(val(pf.U), nsq(pk)) == 1 && gcd(val(pf.W), val(NTilde)) == 1)
+//@   ensures [C11.s1-at-most-q3] result ==> (val(pf.S1) >= curveN(ec) && val(pf.S1) <= q3(ec) && val(pf.S2) >= curveN(ec))
+//@   ensures [C11.degenerate-values-refused] result ==> (val(pf.S) != 1 && val(pf.Z) != 1 && val(pf.S1) != val(pf.S2))
+//@   ensures [C11.ciphertext-is-unit] result ==> gcd(val(c), nsq(pk)) == 1
+//@   ensures [C12.equation-4] result ==> val(pf.U) == (((powmod(val(pk.N) + 1, val(pf.S1), nsq(pk)) * powmod(val(pf.S), val(pk.N), nsq(pk))) % nsq(pk)) * powmod(val(c), 0 - chalAlice(ec, val(pk.N), val(c), val(pf.Z), val(pf.U), val(pf.W)), nsq(pk))) % nsq(pk)
+//@   ensures [C12.equation-5] result ==> val(pf.W) == (((powmod(val(h1), val(pf.S1), val(NTilde)) * powmod(val(h2), val(pf.S2), val(NTilde))) % val(NTilde)) * powmod(val(pf.Z), 0 - chalAlice(ec, val(pk.N), val(c), val(pf.Z), val(pf.U), val(pf.W)), val(NTilde))) % val(NTilde)
